@@ -126,7 +126,8 @@ def translate():
         # generated file can make a bridge proof pass.
         for name, script, outname, ns in (('glue', 'glue2lean.py', 'VecGlue.lean', 'AmcVerif.Gen.Glue'),
                                           ('helpers', 'helpers2lean.py', 'VecHelpers.lean', 'AmcVerif.Gen.Helpers'),
-                                          ('smallset', 'smallset2lean.py', 'SmallSetGen.lean', 'AmcVerif.Gen.SmallSet')):
+                                          ('smallset', 'smallset2lean.py', 'SmallSetGen.lean', 'AmcVerif.Gen.SmallSet'),
+                                          ('memory', 'memory2lean.py', 'MemAlgoGen.lean', 'AmcVerif.Gen.MemAlgo')):
             gout = os.path.join(LEAN, 'AmcVerif', 'Gen', outname)
             stamp = os.path.join(BUILD, name + '.stamp')
             deps = [os.path.join(ROOT, 'translator', script), os.path.join(ROOT, 'translator', 'flatset2lean.py'),
